@@ -92,7 +92,7 @@ class FrpProp(Prop):
     technique = "Coq specification extracted to OCaml as the oracle + differential correspondence; Coq theorems where listed"
     profile = Profile()
     tag = "frp"
-    counts = (1500, 60000)
+    counts = (3000, 60000)
     rule = ("seeded, type-aware generator of legal FRP programs and histories through the public API (profile in "
             "coverage.profile); the implementation's per-listener call sequences, samples, forced lazies and post markers "
             "per script line must equal the denotational spec's (any allowed order of deferred transactions). "
